@@ -346,3 +346,15 @@ Proof.
   rewrite HR in HC. unfold msg_compat in HC. apply andb_true_iff in HC. destruct HC as [_ HC].
   rewrite forallb_forall in HC. specialize (HC _ Hf). rewrite Hg in HC. lia.
 Qed.
+
+(* nothing the other description has is lost: every message of R is a message of S, and every field of it is decoded by
+   S at the same tag *)
+Theorem schema_covers_spec (S R : schema) n r g :
+  schema_covers S R = true -> In (n, r) R -> In g r ->
+  exists d f, lookup_msg S n = Some d /\ lookup_field d (fd_tag g) = Some f.
+Proof.
+  intros HC Hin Hg. unfold schema_covers in HC. rewrite forallb_forall in HC. specialize (HC _ Hin). cbn [fst snd] in HC.
+  destruct (lookup_msg S n) as [d|] eqn:E; [|discriminate]. unfold msg_covers in HC. rewrite forallb_forall in HC.
+  specialize (HC _ Hg). destruct (lookup_field d (fd_tag g)) as [f|] eqn:F; [|discriminate].
+  exists d, f. split; [reflexivity | exact F].
+Qed.
